@@ -239,6 +239,17 @@ def opProjCoords (j : Json) : R Json := do
   if c > a.shape.getLastD 0 then throw "IndexError"
   return ofND (projCoordsND a c)
 
+/-- `hyperbolic.Segment._compute_aux_data` (vectorised form) -/
+def opSegmentAux (j : Json) : R Json := do
+  let e ← ndf j "e"
+  if e.rank < 2 then throw "precondition: ndim < 2"
+  match segmentAuxND rabsQ e with
+  | .error err => throw err
+  | .ok r =>
+    -- exact roots only: the two rows of every unit must be null vectors
+    if (rowsOf r).any (fun x => -(x.headD 0 * x.headD 0) + ((x.drop 1).map (fun t => t * t)).sum != 0) then throw "irrational-root"
+    return ofND r
+
 def ops : List (String × Handler) :=
   [("nd.T", opT), ("nd.expand_range", opExpand), ("nd.squeeze", opSqueeze), ("nd.swapaxes", opSwap),
    ("nd.roll", opRoll), ("nd.sub", opSub), ("nd.select", opSelect), ("nd.slice", opSlice),
@@ -249,5 +260,5 @@ def ops : List (String × Handler) :=
    ("c04.scale_last", opScaleLast), ("c04.p2k", opP2k), ("c04.k2p", opK2p), ("c04.normalize", opNormalize),
    ("nd.select_last", opSelectLast), ("nd.slice_last", opSliceLast), ("nd.delete_last", opDeleteLast),
    ("nd.set_last", opSetLast), ("c04.p2h", opP2h), ("c04.h2p", opH2p), ("c04.affine_coords", opAffine),
-   ("c04.projective_coords", opProjCoords)]
+   ("c04.projective_coords", opProjCoords), ("c04.segment_aux", opSegmentAux)]
 end GT.Driver.C04
